@@ -1,8 +1,186 @@
-/- Driver handlers for area `tokens` (stub: replace `handle`). -/
+/- Driver handlers for area `tokens` (C20): tokens/tokens.go, tokens/tokens_handlers.go. -/
 import VDriver.Util
+import VModel.Tokens
 namespace V.Driver.TokensOps
-open V V.Driver
+open V V.Driver V.Tokens
 
-def handle (_op : String) (_args : Array String) : Option String := none
+/-! Encodings (see harness/area_tokens.go):
+    key      : hex | `nil`
+    caveats  : `_` (none) | `;`-separated `cid` or `cid:vid` (hex, `-` = empty)
+    prov     : `S:<key>` the signature is the real chain of this very (id, caveats) under <key>
+               `O:<key>:<id>:<conds ,-separated|_>` it is the real chain of that other content
+               `G` it is neither (garbage)
+    cavspec  : `_` | `;`-separated  `L<hex>` literal condition | `T<delta>` = "time < " ++ itoa(N+delta)
+                                  | `P<hex>` third-party caveat with that id -/
+
+def optKey (s : String) : Option (Option Bytes) :=
+  if s == "nil" then some none else (unhex s).map some
+
+def parseCaveat (s : String) : Option Caveat :=
+  match s.splitOn ":" with
+  | [c] => (unhex c).map (fun b => { cid := b })
+  | [c, v] => match unhex c, unhex v with
+    | some b, some w => some { cid := b, vid := w }
+    | _, _ => none
+  | _ => none
+
+def parseList {α} (sep : String) (f : String → Option α) (s : String) : Option (List α) :=
+  if s == "_" then some [] else (s.splitOn sep).mapM f
+
+def parseCaveats (s : String) : Option (List Caveat) := parseList ";" parseCaveat s
+
+/-- a signature value no chain ever produces (`derive` output; chains end in `mac`) -/
+def garbageSig : ToyK := ([], [])
+
+/-- toy signature from the provenance the harness established with the real HMAC -/
+def sigOfProv (prov : String) (id : Bytes) (cavs : List Caveat) : Option ToyK :=
+  match prov.splitOn ":" with
+  | ["G"] => some garbageSig
+  | ["S", k] => (unhex k).map (fun key => chain toy key id (cavs.map (·.cid)))
+  | ["O", k, i, cs] =>
+    match unhex k, unhex i, parseList "," unhex cs with
+    | some key, some oid, some conds => some (chain toy key oid conds)
+    | _, _, _ => none
+  | _ => none
+
+/-- `some key` iff the provenance says: chain of exactly this content under `key` -/
+def provKey (prov : String) (id : Bytes) (cavs : List Caveat) : Option Bytes :=
+  match prov.splitOn ":" with
+  | ["S", k] => if cavs.all (fun c => c.vid.isEmpty) then unhex k else none
+  | ["O", k, i, cs] =>
+    match unhex k, unhex i, parseList "," unhex cs with
+    | some key, some oid, some conds =>
+      if oid == id && conds == cavs.map (·.cid) && cavs.all (fun c => c.vid.isEmpty) then some key else none
+    | _, _, _ => none
+  | _ => none
+
+def showV : Except VErr Unit → String
+  | .ok () => "ok"
+  | .error .options => "err:options"
+  | .error .decode => "err:decode"
+  | .error .sig => "err:sig"
+  | .error .caveats => "err:caveats"
+
+/-- spec stream: `ok` where the property demands acceptance; where it demands refusal the class of the
+    refusal is not the property's business, so the model's class is echoed (or `err:must-refuse`). -/
+def specLine (demandOk : Bool) (model : String) : String :=
+  if demandOk then "ok" else if model.startsWith "err" then model else "err:must-refuse"
+
+inductive CavSpec where
+  | lit (b : Bytes) | time (delta : Int) | third (b : Bytes)
+
+def parseCavSpec (s : String) : Option CavSpec :=
+  if s.startsWith "L" then (unhex (s.drop 1).toString).map .lit
+  else if s.startsWith "T" then ((s.drop 1).toString.toInt?).map .time
+  else if s.startsWith "P" then (unhex (s.drop 1).toString).map .third
+  else none
+
+def cavOfSpec (n : Int) : CavSpec → Caveat
+  | .lit b => { cid := b }
+  | .time d => { cid := TimePrefix ++ itoa (n + d) }
+  | .third b => { cid := b, vid := [1] }
+
+/-- render a condition of an issued token; the expiry caveat relative to the issue instant -/
+def showCond (n : Int) (c : Bytes) : String :=
+  if TimePrefix.isPrefixOf c then
+    let rest := c.drop TimePrefix.length
+    match atoi rest with
+    | some e => if itoa e == rest then "T" ++ toString (e - n) else hex c
+    | none => hex c
+  else hex c
+
+def inRange (x : Int) : Bool := decide (minInt64 ≤ x ∧ x ≤ maxInt64)
+
+def handle (op : String) (args : Array String) : Option String :=
+  match op, args.toList with
+  | "generate", [k, srv, usr, dur, n] =>
+    match optKey k, unhex srv, unhex usr, dur.toInt?, n.toInt? with
+    | some key, some s, some u, some d, some now =>
+      let o : TokenOptions := { key := key, serverName := s, user := u, duration := d }
+      let m := match generate toy o now with
+        | .error _ => "err:options"
+        | .ok t =>
+          let sg := match verifySig toy o.keyBytes t with | some _ => "S" | none => "G"
+          let usr' := match getUser (some t) with | .ok i => hex i | .error _ => "?"
+          "ok:" ++ hex t.id ++ ":" ++ ",".intercalate (t.caveats.map (fun c => showCond now c.cid)) ++ ":" ++ sg ++ ":user=" ++ usr'
+      -- specification: written out literally, not through the model
+      let sp :=
+        if key.isNone || s.isEmpty || u.isEmpty then "unspecified:invalid-options"
+        else
+          let d' : Int := if d == 0 then 120 else d
+          if !inRange (now + d') then "unspecified:expiry-overflows-int64"
+          else "ok:" ++ hex u ++ ":" ++ hex Gen ++ "," ++ hex (UserPrefix ++ u) ++ ",T" ++ toString d' ++ ":S:user=" ++ hex u
+      some (m ++ "\t" ++ sp)
+    | _, _, _, _, _ => some "bad-op"
+  | "validate", [k, usr, n, dec, id, cavs, prov, _raw] =>
+    match optKey k, unhex usr, n.toInt? with
+    | some key, some u, some now =>
+      let o : TokenOptions := { key := key, serverName := [], user := u }
+      if dec == "0" then
+        some ("err:decode\terr:decode")
+      else match unhex id, parseCaveats cavs with
+        | some i, some cs =>
+          match sigOfProv prov i cs with
+          | none => some "bad-op"
+          | some sg =>
+            let m := showV (validate toy o (some { id := i, caveats := cs, sig := sg }) now)
+            let demand := Spec.validOk o.keyBytes u now (provKey prov i cs) i cs
+            some (m ++ "\t" ++ specLine demand m)
+        | _, _ => some "bad-op"
+    | _, _, _ => some "bad-op"
+  | "validate_at", [k, usr, n, mk, id, specs] =>
+    match optKey k, unhex usr, n.toInt?, unhex mk, unhex id, parseList ";" parseCavSpec specs with
+    | some key, some u, some now, some mkey, some i, some sp =>
+      let o : TokenOptions := { key := key, serverName := [], user := u }
+      let cs := sp.map (cavOfSpec now)
+      -- the harness minted it with macaroon.New(mkey, id) + Add*Caveat: a valid chain under mkey
+      -- (for a third-party caveat the chain uses another function; validation fails before using it)
+      let sg := if cs.all (fun c => c.vid.isEmpty) then chain toy mkey i (cs.map (·.cid)) else garbageSig
+      let m := showV (validate toy o (some { id := i, caveats := cs, sig := sg }) now)
+      let demand := Spec.validOk o.keyBytes u now (if cs.all (fun c => c.vid.isEmpty) then some mkey else none) i cs
+      some (m ++ "\t" ++ specLine demand m)
+    | _, _, _, _, _, _ => some "bad-op"
+  | "issue_validate", [ik, srv, iu, dur, vk, vu, n, dt, apps] =>
+    match optKey ik, unhex srv, unhex iu, dur.toInt?, optKey vk, unhex vu, n.toInt?, dt.toInt?, parseList ";" parseCavSpec apps with
+    | some ikey, some s, some iusr, some d, some vkey, some vusr, some now, some delay, some ap =>
+      let io : TokenOptions := { key := ikey, serverName := s, user := iusr, duration := d }
+      let vo : TokenOptions := { key := vkey, serverName := s, user := vusr }
+      match generate toy io now with
+      | .error _ => some "err:options\tunspecified:invalid-options"
+      | .ok t =>
+        let extra := ap.map (cavOfSpec now)
+        -- AddFirstPartyCaveat extends the chain
+        let t' : Token ToyK := { id := t.id, caveats := t.caveats ++ extra,
+                                 sig := extra.foldl (fun sg c => toy.mac sg c.cid) t.sig }
+        let m := showV (validate toy vo (some t') (now + delay))
+        let d' : Int := if d == 0 then 120 else d
+        let sp :=
+          if !inRange (now + d') then "unspecified:expiry-overflows-int64"
+          else specLine (io.keyBytes == vo.keyBytes && iusr == vusr && extra.isEmpty && decide (now + delay < now + d')) m
+        some (m ++ "\t" ++ sp)
+    | _, _, _, _, _, _, _, _, _ => some "bad-op"
+  | "issue_wait_validate", [k, srv, usr, dur, lo, hi, n] =>
+    match optKey k, unhex srv, unhex usr, dur.toInt?, lo.toInt?, hi.toInt?, n.toInt? with
+    | some key, some s, some u, some d, some elo, some ehi, some now =>
+      let o : TokenOptions := { key := key, serverName := s, user := u, duration := d }
+      match generate toy o now with
+      | .error _ => some "err:options\tunspecified:invalid-options"
+      | .ok t =>
+        let a := showV (validate toy o (some t) (now + elo))
+        let b := showV (validate toy o (some t) (now + ehi))
+        if a != b then some "skip:outcome depends on the sub-second phase"
+        else
+          let d' : Int := if d == 0 then 120 else d
+          some (a ++ "\t" ++ specLine (decide (ehi < d')) a)
+    | _, _, _, _, _, _, _ => some "bad-op"
+  | "get_user", [dec, id, _raw] =>
+    if dec == "0" then some "err:decode\terr:decode"
+    else match unhex id with
+      | some i =>
+        match getUser (K := ToyK) (some { id := i, caveats := [], sig := garbageSig }) with
+        | .ok u => some ("ok:" ++ hex u ++ "\tok:" ++ hex i)
+        | .error _ => some "err:decode"
+      | none => some "bad-op"
+  | _, _ => none
 
 end V.Driver.TokensOps
